@@ -13,6 +13,9 @@ from pyvc.ty import INT, BOOL, TList, TSet, TOpaque, Text, TTuple, TOpt, SINK
 from pyvc import replay as _replay
 
 PROP = "C33"
+# every obligation of this module is discharged in ~0.01 s; a short budget keeps a FAILING run (where z3 times out on each
+# refuted obligation before the bounded refutation takes over) within minutes
+TIMEOUT_MS = 3000
 
 from .types import Sig, SQLBaseError  # noqa: E402
 
